@@ -1,4 +1,5 @@
 #include "fact.h"
+#include <fenv.h>
 
 void fact_do(const vf_api *P, const vf_mat *A, const superlu_options_t *opt, const int *my_permc,
              void *work, int_t lwork, int ilu, fact_run *R)
@@ -14,8 +15,10 @@ void fact_do(const vf_api *P, const vf_mat *A, const superlu_options_t *opt, con
     sp_preorder(&R->opt, &R->A, R->perm_c, R->etree, &R->AC); R->have_AC = 1;
     StatInit(&R->stat); R->stat_on = 1;
     R->info = -999; R->user_work = lwork > 0;
+    feclearexcept(FE_ALL_EXCEPT);
     if (ilu) P->gsitrf(&R->opt, &R->AC, sp_ienv(2), sp_ienv(1), R->etree, work, lwork, R->perm_c, R->perm_r, &R->L, &R->U, &R->Glu, &R->stat, &R->info);
     else P->gstrf(&R->opt, &R->AC, sp_ienv(2), sp_ienv(1), R->etree, work, lwork, R->perm_c, R->perm_r, &R->L, &R->U, &R->Glu, &R->stat, &R->info);
+    R->fp_inexact = fetestexcept(FE_INEXACT) != 0;
     int mn = A->m < A->n ? A->m : A->n;
     R->have_LU = (R->info >= 0 && R->info <= mn && lwork != -1);
 }
@@ -185,4 +188,118 @@ size_t generous_lwork(const vf_api *P, int n, int_t nnz)
 {
     size_t N = (size_t)(n > 4 ? n : 4);
     return 3 * N * N * (P->ssz + 2 * sizeof(int_t)) + 64 * (size_t)nnz * (P->ssz + sizeof(int_t)) + 400 * N * (P->ssz + 8) + 100000;
+}
+
+int effective_op(int rowmajor, trans_t t) { if (!rowmajor) return (int)t; return t == NOTRANS ? 1 : t == TRANS ? 0 : 3; }
+void xdrv_factored_matrix(const xdrv *D, vf_mat *F)
+{
+    /* NRformat and NCformat share their layout: reading the row-major arrays as CSC yields A^T, the matrix that was factored */
+    const NCformat *s = D->A.Store; int n = D->n; F->m = F->n = n; F->nnz = s->colptr[n];
+    F->colptr = malloc(sizeof(int_t) * (size_t)(n + 1)); memcpy(F->colptr, s->colptr, sizeof(int_t) * (size_t)(n + 1));
+    F->rowind = malloc(sizeof(int_t) * (size_t)(F->nnz + 1)); memcpy(F->rowind, s->rowind, sizeof(int_t) * (size_t)F->nnz);
+    F->v = malloc(sizeof(ldc) * (size_t)(F->nnz + 1)); for (int_t k = 0; k < F->nnz; k++) F->v[k] = D->P->get(s->nzval, (size_t)k);
+}
+ld rmul_native(const vf_api *P, ld a, ld b)
+{
+    if (P->rsz == 4) { volatile float x = (float)a, y = (float)b; volatile float z = x * y; return (ld)z; }
+    volatile double x = (double)a, y = (double)b; volatile double z = x * y; return (ld)z;
+}
+ldc mul_native(const vf_api *P, ldc a, ld f) { return rmul_native(P, creall(a), f) + rmul_native(P, cimagl(a), f) * I; }
+
+ld xdrv_skeel_sigma(const xdrv *D, trans_t trans)
+{
+    /* sigma = max_i w_i / min_i w_i with w = |op(F)||y| + |b| over all right-hand sides (INFINITY if some w_i = 0):
+       working-precision refinement only guarantees a small componentwise backward error when cond * sigma * eps is small (Skeel) */
+    const vf_api *P = D->P; int n = D->n, nrhs = D->nrhs; vf_mat F; xdrv_factored_matrix(D, &F);
+    int op = effective_op(D->rowmajor, trans); int notranF = (op == 0 || op == 3);
+    int rowequ = D->equed[0] == 'R' || D->equed[0] == 'B', colequ = D->equed[0] == 'C' || D->equed[0] == 'B';
+    ldc *X = malloc(sizeof(ldc) * (size_t)n * (nrhs + 1)), *B = malloc(sizeof(ldc) * (size_t)n * (nrhs + 1)); dense_read(P, &D->X, X); dense_read(P, &D->B, B);
+    ld worst = 1; ld *w = malloc(sizeof(ld) * (size_t)(n + 1));
+    for (int j = 0; j < nrhs; j++) {
+        for (int i = 0; i < n; i++) w[i] = cabsl(B[(size_t)j * n + i]);
+        for (int cc = 0; cc < n; cc++) for (int_t q = F.colptr[cc]; q < F.colptr[cc + 1]; q++) {
+            int rr = (int)F.rowind[q]; int xi = notranF ? cc : rr, wi = notranF ? rr : cc;
+            ld t = 1; if (notranF && colequ) t = P->rget(D->C, (size_t)xi); else if (!notranF && rowequ) t = P->rget(D->R, (size_t)xi);
+            w[wi] += cabsl(F.v[q]) * cabsl(X[(size_t)j * n + xi] / t);
+        }
+        ld mx = 0, mn = INFINITY; for (int i = 0; i < n; i++) { if (w[i] > mx) mx = w[i]; if (w[i] < mn) mn = w[i]; }
+        ld sg = mn > 0 ? mx / mn : INFINITY; if (mx == 0) sg = 1; if (sg > worst) worst = sg;
+    }
+    free(w); free(X); free(B); mat_free(&F); return worst;
+}
+ld xdrv_scaled_residual(const xdrv *D, trans_t trans, ld cfac, int *nonfinite)
+{
+    const vf_api *P = D->P; int n = D->n, nrhs = D->nrhs; *nonfinite = 0;
+    vf_mat F; xdrv_factored_matrix(D, &F);
+    int op = effective_op(D->rowmajor, trans); int notranF = (op == 0 || op == 3);
+    int rowequ = D->equed[0] == 'R' || D->equed[0] == 'B', colequ = D->equed[0] == 'C' || D->equed[0] == 'B';
+    ldc *Ld = malloc(sizeof(ldc) * (size_t)n * n), *Ud = malloc(sizeof(ldc) * (size_t)n * n); ld *E = malloc(sizeof(ld) * (size_t)n * n);
+    expand_LU(P, &D->L, &D->U, n, n, Ld, Ud); absLU_orig(P, D->perm_r, D->perm_c, Ld, Ud, n, E);
+    ldc *X = malloc(sizeof(ldc) * (size_t)n * (nrhs + 1)), *B = malloc(sizeof(ldc) * (size_t)n * (nrhs + 1));
+    dense_read(P, &D->X, X); dense_read(P, &D->B, B);
+    ld worst = 0;
+    for (int j = 0; j < nrhs; j++) {
+        ldc *x = &X[(size_t)j * n];
+        for (int i = 0; i < n; i++) {
+            if (!isfinite((double)creall(x[i])) || !isfinite((double)cimagl(x[i]))) *nonfinite = 1;
+            ld t = 1; if (notranF && colequ) t = P->rget(D->C, (size_t)i); else if (!notranF && rowequ) t = P->rget(D->R, (size_t)i);
+            x[i] = x[i] / t;
+        }
+        ld q = solve_residual_ratio(P, &F, op, x, &B[(size_t)j * n], E, cfac);
+        if (getenv("VF_DEBUG")) { ld xm = 0, bm = 0; for (int i = 0; i < n; i++) { if (cabsl(x[i]) > xm) xm = cabsl(x[i]); if (cabsl(B[(size_t)j * n + i]) > bm) bm = cabsl(B[(size_t)j * n + i]); } fprintf(stderr, "  rhs %d: ratio %Lg  max|y|=%Lg max|b|=%Lg\n", j, q, xm, bm); }
+        if (!(q <= worst)) worst = q;
+    }
+    free(Ld); free(Ud); free(E); free(X); free(B); mat_free(&F);
+    return worst;
+}
+static int same_ldc(ldc a, ldc b) { return creall(a) == creall(b) && cimagl(a) == cimagl(b); }
+int xdrv_check_A_scaling(const xdrv *D, const vf_snap *idx0, const ldc *A0, char *why, size_t wl)
+{
+    const vf_api *P = D->P; const NCformat *s = D->A.Store; int n = D->n;
+    vf_snap idx1; snap_sparse(P, &D->A, &idx1, NULL);
+    int same = snap_same(idx0, &idx1); snap_free(&idx1);
+    if (!same) { snprintf(why, wl, "index arrays (or nnz) of A changed"); return 1; }
+    char e = D->equed[0];
+    if (e != 'N' && e != 'R' && e != 'C' && e != 'B') { snprintf(why, wl, "equed = 0x%02x is not one of N R C B", (unsigned char)e); return 1; }
+    int rowequ = e == 'R' || e == 'B', colequ = e == 'C' || e == 'B';
+    for (int j = 0; j < n; j++) for (int_t k = s->colptr[j]; k < s->colptr[j + 1]; k++) {
+        int i = (int)s->rowind[k]; ldc now = P->get(s->nzval, (size_t)k), a = A0[k];
+        ld r = rowequ ? P->rget(D->R, (size_t)i) : 1, cj = colequ ? P->rget(D->C, (size_t)j) : 1;
+        int ok;
+        if (!rowequ && !colequ) ok = same_ldc(now, a);
+        else if (rowequ && !colequ) ok = same_ldc(now, mul_native(P, a, r));
+        else if (!rowequ && colequ) ok = same_ldc(now, mul_native(P, a, cj));
+        else {
+            ok = same_ldc(now, mul_native(P, a, rmul_native(P, cj, r))) || same_ldc(now, mul_native(P, mul_native(P, a, r), cj)) || same_ldc(now, mul_native(P, mul_native(P, a, cj), r));
+            if (!ok) { ldc ex = a * r * cj; ld d = cabsl(now - ex), m_ = cabsl(ex);
+                if (m_ > P->tiny * 4 && m_ < P->huge / 4 && fabsl(r * cj) > P->tiny * 4 && d <= 3 * P->eps * m_) ok = 1; }
+        }
+        if (!ok) { snprintf(why, wl, "stored entry %lld (row %d, col %d of the factored orientation): %.17Lg%+.17Lgi, original %.17Lg%+.17Lgi, R=%.17Lg C=%.17Lg, equed=%c",
+                            (long long)k, i, j, creall(now), cimagl(now), creall(a), cimagl(a), r, cj, e); return 1; }
+    }
+    return 0;
+}
+int xdrv_check_B_scaling(const xdrv *D, trans_t trans, const ldc *B0, char *why, size_t wl)
+{
+    const vf_api *P = D->P; int n = D->n, nrhs = D->nrhs; char e = D->equed[0];
+    int rowequ = e == 'R' || e == 'B', colequ = e == 'C' || e == 'B';
+    int notran = trans == NOTRANS; if (D->rowmajor) notran = !notran;      /* documented table for SLU_NR */
+    const void *sc = NULL; if (notran && rowequ) sc = D->R; else if (!notran && colequ) sc = D->C;
+    if (!dense_padding_intact(P, &D->B, D->padB)) { snprintf(why, wl, "padding rows of B (ldb > n) were written"); return 1; }
+    ldc *B = malloc(sizeof(ldc) * (size_t)n * (nrhs + 1)); dense_read(P, &D->B, B); int bad = 0;
+    for (int j = 0; j < nrhs && !bad; j++) for (int i = 0; i < n; i++) {
+        ldc b0 = B0[(size_t)j * n + i], ex = sc ? mul_native(P, b0, P->rget(sc, (size_t)i)) : b0;
+        if (!same_ldc(B[(size_t)j * n + i], ex)) { bad = 1; snprintf(why, wl, "B(%d,%d) = %.17Lg%+.17Lgi, expected %.17Lg%+.17Lgi (%s, equed=%c, trans=%d, %s)", i, j,
+            creall(B[(size_t)j * n + i]), cimagl(B[(size_t)j * n + i]), creall(ex), cimagl(ex), sc ? (sc == D->R ? "scaled by R" : "scaled by C") : "unscaled", e, (int)trans, D->rowmajor ? "NR" : "NC"); break; }
+    }
+    free(B); return bad;
+}
+
+ld dense_cond1(const vf_mat *F, ld *n1, ld *in1, ld *ni, ld *ini)
+{
+    int n = F->n; ldc *D = malloc(sizeof(ldc) * (size_t)n * n), *X = malloc(sizeof(ldc) * (size_t)n * n);
+    mat_to_dense(F, D); ld a1 = dense_norm1(n, D), ai = dense_norminf(n, D), r;
+    if (dense_inverse(n, D, X)) { r = INFINITY; if (n1) *n1 = a1; if (in1) *in1 = INFINITY; if (ni) *ni = ai; if (ini) *ini = INFINITY; }
+    else { ld b1 = dense_norm1(n, X), bi = dense_norminf(n, X); r = a1 * b1; if (n1) *n1 = a1; if (in1) *in1 = b1; if (ni) *ni = ai; if (ini) *ini = bi; }
+    free(D); free(X); return r;
 }
